@@ -87,3 +87,5 @@ def replay(path):
         return family.replay_case_file(E, "C01", path)
     finally:
         E.close()
+
+READY = True
